@@ -60,7 +60,7 @@ F32B = (0.1, 0.9, 5.3)
 
 def tasks(tier):
     n = NMAX[tier]
-    ts = [("f32",), ("layout",), ("valid_int",), ("int_ma",), ("valid_as",)]
+    ts = [("f32",), ("layout",), ("valid_int",), ("int_ma",), ("valid_as",), ("nearspan",), ("valid_far",)]
     for f in itertools.product(B, repeat=2):
         ts.append(("gross", list(f), n))
     for lo in (None,) + B:
@@ -117,6 +117,16 @@ def check_case(case):
         if got.shape != base.shape or not np.array_equal(got, exp):
             vs.append(dict(signature=f"{PROP}|{case['which']}|2d-{case['order']}|symptom=flags-misplaced", what=f"{case['which']} range test on a 2-D {case['order']}-ordered array puts flags on the wrong elements", expected=exp.tolist(), observed=got.tolist()))
         return vs, True, tuple(got.reshape(-1).tolist()), 0
+    if fn == "valid_far":
+        mul = {"D": 1, "h": 24, "s": 86400}[case["unit"]]
+        mk = lambda v: None if v is None else np.datetime64(int(v) * mul, case["unit"])
+        inp = np.array([int(v) * mul for v in case["x"]], dtype="int64").astype(f"datetime64[{case['unit']}]")
+        si, ei = case["incl"] if case["incl"] is not None else (True, False)
+        kw = {} if case["incl"] is None else dict(start_inclusive=si, end_inclusive=ei)
+        out = alpha.call(axds.valid_range_test, inp, (mk(case["lo"]), mk(case["hi"])), **kw)
+        acceptable = R.valid_range([float(v) for v in case["x"]], case["lo"], case["hi"], si, ei)
+        vs, obs = judge_flags(PROP, "valid_range_test", out, acceptable, len(case["x"]), extra_sig=f"datetime[{case['unit']}]|far-dates", classify=lambda i: "value")
+        return vs, True, obs, 0
     if fn == "gross_int_ma":
         # integer-typed masked array (a packed variable with a fill value): missing = masked, any integer underneath
         x = case["x"]
@@ -233,6 +243,28 @@ def run_task(task, acc):
                         for x in (series_space(n) if sc == "list" else PRODUCT[:1]):
                             yield dict(fn="valid", x=x, lo=lo, hi=hi, incl=None if incl is None else list(incl), span_carrier=sc)
 
+        run_cases(acc, gen(), check_case)
+    elif kind == "nearspan":
+        # a suspect span reaching a hair outside the fail span must be rejected like any other span outside it;
+        # one ending exactly on the fail bound (or a hair inside) is accepted
+        def gen():
+            x = [-1.0, 0.0, 10.0, 39.99995, 40.0, 40.00005, 41.0]
+            for fail in ([0, 40], [40, 0], [0.0, 0.3]):
+                lo, hi = min(fail), max(fail)
+                for dlo in (0.0, -1e-9, 1e-9, -1e-5 * max(abs(lo), 1e-3)):
+                    for dhi in (0.0, 1e-9, -1e-9, 1e-4 * hi, np.nextafter(hi, np.inf) - hi):
+                        yield dict(fn="gross", x=x, fail=fail, suspect=[lo + dlo, hi + dhi], span_carrier="list")
+            yield dict(fn="gross", x=x, fail=[0.0, 0.3], suspect=[0.0, 0.1 + 0.2], span_carrier="list")
+        run_cases(acc, gen(), check_case)
+    elif kind == "valid_far":
+        # coarse datetime units reaching far beyond the range of nanosecond timestamps
+        def gen():
+            days = [-200000, -1, 0, 1, 102000, 102272, 111000, 200000]   # days since 1970 (1422 .. 2517)
+            for unit in ("D", "h", "s"):
+                for lo in (None, -1, 102000, 111000):
+                    for hi in (None, 102272, 111000, 200000):
+                        for incl in INCL:
+                            yield dict(fn="valid_far", x=days, unit=unit, lo=lo, hi=hi, incl=None if incl is None else list(incl))
         run_cases(acc, gen(), check_case)
     elif kind == "int_ma":
         def gen():
